@@ -129,6 +129,26 @@ ValidAt(I, E, t) == NonNeg32(Sub32(t, I)) /\ NonNeg32(Sub32(E, t))
 ValidDefined(I, E, t) == Sub32(t, I) # Half /\ Sub32(E, t) # Half
 
 -----------------------------------------------------------------------------
+(* A second legal spelling of a name (RFC 1035 section 5.1): every octet as    *)
+(* \DDD.  Names!Parse reads it back to the same labels; a letter written that  *)
+(* way is still a letter of the name.                                          *)
+PresentDDD(n) == IF n = <<>> THEN <<46>>
+                 ELSE Concat([i \in 1..Len(n) |-> Concat([j \in 1..Len(n[i]) |-> <<92>> \o Dec3(n[i][j])]) \o <<46>>])
+\* does the text spell an upper-case ASCII letter as \DDD ?  (classification only)
+RECURSIVE HasEscUpper(_, _)
+HasEscUpper(s, i) ==
+  IF i + 3 > Len(s) THEN FALSE
+  ELSE IF s[i] = 92 THEN
+         IF IsDigit(s[i+1]) /\ IsDigit(s[i+2]) /\ IsDigit(s[i+3]) THEN
+           LET v == 100 * (s[i+1] - 48) + 10 * (s[i+2] - 48) + (s[i+3] - 48) IN
+           (v >= 65 /\ v <= 90) \/ HasEscUpper(s, i + 4)
+         ELSE HasEscUpper(s, i + 2)
+       ELSE HasEscUpper(s, i + 1)
+\* finding keys for digests: one class for the \DDD spelling of upper-case letters, else by hash / plain
+DSDigestKey(hn, text)  == IF HasEscUpper(text, 1) THEN "ds/digest:escaped-uppercase" ELSE "ds/digest:" \o hn
+HashNameKey(text, variant) == IF HasEscUpper(text, 1) THEN "nsec3/hashname:escaped-uppercase"
+                              ELSE IF variant THEN "nsec3/hashname:case-variant" ELSE "nsec3/hashname"
+-----------------------------------------------------------------------------
 (* Classification of a case, used only to build finding keys (one key per     *)
 (* defect class, so that an unrelated failure is still reported).             *)
 Shape(o, nx) == IF o = nx THEN "empty" ELSE IF LexLess(o, nx) THEN "normal" ELSE "wrapping"
